@@ -26,3 +26,21 @@ Definition loss_huber (alpha a f o : Q) : Q :=
   (if Qltb o f then 1 - alpha else alpha)
   * (if Qle_bool (Qabs (f - o)) a then (1 # 2) * ((f - o) * (f - o)) else a * (Qabs (f - o) - (1 # 2) * a)).
 
+
+(* ------------------------------------------------------------------------------------------ *)
+(* the same definition on the extended reals: forecasts, observations and thetas may be +-inf. *)
+(* The regions are read with the order of the extended reals (-inf < every rational < +inf),   *)
+(* the penalty sizes with IEEE arithmetic: theta - obs = +inf for obs = -inf and a finite      *)
+(* theta, min(+inf, a) = a.  The only undefined size is theta - obs with obs = theta = -inf.    *)
+(* ------------------------------------------------------------------------------------------ *)
+Definition xin_over (f o t : xv) : bool := xle o t && xlt t f.       (* obs <= theta < fcst *)
+Definition xin_under (f o t : xv) : bool := xle f t && xlt t o.      (* fcst <= theta < obs *)
+Definition xpen (c : bool) (w : Q) (size : xv) : xv := if c then xmul (XFin w) size else X0.
+Definition esx_quantile_over (alpha : Q) (f o t : xv) : xv := xpen (xin_over f o t) (1 - alpha) X1.
+Definition esx_quantile_under (alpha : Q) (f o t : xv) : xv := xpen (xin_under f o t) alpha X1.
+Definition esx_huber_over (alpha a : Q) (f o t : xv) : xv := xpen (xin_over f o t) (1 - alpha) (xmin (xsub t o) (XFin a)).
+Definition esx_huber_under (alpha a : Q) (f o t : xv) : xv := xpen (xin_under f o t) alpha (xmin (xsub o t) (XFin a)).
+Definition esx_expectile_over (alpha : Q) (f o t : xv) : xv := xpen (xin_over f o t) (1 - alpha) (xsub t o).
+Definition esx_expectile_under (alpha : Q) (f o t : xv) : xv := xpen (xin_under f o t) alpha (xsub o t).
+(* theta - obs is defined (not inf - inf): every case except obs = theta = -inf (obs = theta = +inf lies in no region) *)
+Definition size_defined (o t : xv) : bool := negb (match o, t with XInf false, XInf false => true | _, _ => false end).
